@@ -1432,12 +1432,24 @@ impl Ms {
                     }
                 }
             }
-            // at most once over the whole history: all ping ids ever delivered are distinct
+            // at most once over the whole history: a ping is delivered at most as often as proposals carry it
+            // (ids are unique per message, except where a proposal deliberately lists the same message twice)
             let all = w.c.sink_log(&w.sink, 0);
-            let mut seen = BTreeSet::new();
+            let mut carried: BTreeMap<String, u32> = BTreeMap::new();
+            for m in &w.props {
+                for pm in &m.msgs {
+                    if let PMsg::Ping { id } = pm {
+                        *carried.entry(id.clone()).or_insert(0) += 1;
+                    }
+                }
+            }
+            let mut seen: BTreeMap<String, u32> = BTreeMap::new();
             for e in &all {
-                if !seen.insert(e.payload.clone()) {
-                    h.violate(&format!("C05/{kind:?}/deliveries/message-delivered-twice"), format!("{}", e.payload));
+                let id = serde_json::from_str::<serde_json::Value>(&e.payload).ok().and_then(|v| v["ping"]["id"].as_str().map(|s| s.to_string())).unwrap_or_else(|| e.payload.clone());
+                let n = seen.entry(id.clone()).or_insert(0);
+                *n += 1;
+                if *n > *carried.get(&id).unwrap_or(&1) {
+                    h.violate(&format!("C05/{kind:?}/deliveries/message-delivered-twice"), format!("{} delivered {} times, proposals carry it {} time(s)", e.payload, n, carried.get(&id).unwrap_or(&0)));
                     return false;
                 }
             }
@@ -1926,7 +1938,8 @@ impl Ms {
                         Act::Do(0, prop_op(vec![ping(1, 0, hist), PMsg::SelfExecute(2), ping(1, 2, hist)])), // passes at once (weight 3)
                         Act::Do(0, prop_op(vec![ping(2, 0, hist), PMsg::Bank { rcpt: mk_addr(&format!("rcpt-d-{hist}")), amount: 77 }])),
                         Act::Do(0, prop_op(vec![ping(3, 0, hist), PMsg::SelfExecute(3)])), // executes itself: always fails
-                        Act::Do(0, prop_op(vec![ping(4, 0, hist)])),
+                        // the same message twice in a row is two messages
+                        Act::Do(0, prop_op(vec![ping(4, 0, hist), ping(4, 0, hist), ping(4, 2, hist), ping(4, 0, hist)])),
                         Act::Sink(true),
                         Act::ByStranger(Op::Execute { id: 4 }), // dispatch fails, stays Passed
                         Act::ByStranger(Op::Execute { id: 1 }),
